@@ -12,21 +12,30 @@ from twisted.python.failure import Failure
 
 HEADLINE = "TwistedProps.C10.looping_call_cadence_reentrant"
 RULE = ("histories over one LoopingCall on task.Clock: start(interval, now) with dyadic interval (1..64 ticks of "
-        "2^-k s, k=0..10), advances of 0 / sub-interval / exactly-to-the-boundary / one interval / many intervals "
+        "2^-k s, k=0..10; in 1 of 6 cases a tiny or huge unit: k = 20/30/40 (intervals down to 9e-13 s) or k = -6/-12 "
+        "(a tick of 64 s / 4096 s)), in 1 of 4 cases on a clock that is first advanced to an epoch-like time (2^36 .. 2^50 "
+        "ticks, +0/1/random so the start is not a multiple of the interval), advances of 0 / sub-interval / exactly-to-the-boundary / one interval / many intervals "
         "plus remainder, looped function scripted per invocation (return, raise, unfired Deferred, stop() inside, "
         "stop()+Deferred; also: raise outside the Exception hierarchy, already-fired / already-failed Deferred, reset() "
         "inside, start() inside), the Deferred fired or errbacked later, stop()/reset() at random points (also while the "
         "Deferred is unfired, also when not running → AssertionError), restart after the previous start() Deferred "
-        "fired; in 2 of 5 cases the callbacks of start()'s Deferreds are scripted too (one list of start/stop/reset "
+        "fired; in half of the cases WHAT the function returns is varied per invocation (case fields dk / rv): the unfired "
+        "Deferred is a plain Deferred / an instance of a Deferred subclass / a Deferred already callback()ed whose chain "
+        "waits on another unfired Deferred / a Deferred callback()ed while paused, and plain results, results of "
+        "already-fired Deferreds and the values the Deferred is fired with range over None, False, 0, '', 7, (), 'x', "
+        "True; in 3 of 5 plain (not withCount) cases the LoopingCall is built with positional and/or keyword arguments "
+        "and the function checks it receives exactly those at every call; in 2 of 5 cases the callbacks of start()'s Deferreds are scripted too (one list of start/stop/reset "
         "per firing: restart with/without immediate call, restart+stop, stop/reset misuse, nothing; run synchronously "
         "inside the firing, nested firings included) and the history is biased towards runs that END (raise, "
         "failed/already-fired Deferred, BaseException, errback, stop inside the function, stop in flight, stop between "
         "calls); plain and withCount; distinct = (withCount, op-kind set, behaviours run, jump sizes, restart, reset "
-        "position, how the run ended, which firing site ran which callback at which nesting)")
+        "position, how the run ended, which firing site ran which callback at which nesting, unit class, epoch, "
+        "argument mode, Deferred kinds and non-None results that occurred)")
 ASSUMES = [
     "interval > 0 (the statement's precondition); interval 0 (busy loop on task.Clock) is outside the model",
-    "all times are dyadic: integers of 2^-k s, k<=10, below 2^22 ticks, so Python float + - % are exact and "
-    "int(a/b) is the truncated quotient (run_impl asserts every observed time is an integral number of ticks)",
+    "all times are dyadic: integer numbers of ticks of 2^-k s (k in -12..40), below 2^52 ticks, so Python float "
+    "+ - % are exact and int(a/b) is the truncated quotient (the quotients taken are of elapsed times, below 2^20 "
+    "ticks); run_impl asserts every observed time is an integral number of ticks below 2^52",
     "the float-absorption branch of howLong (`when == when + untilNextInterval` with a non-zero increment) is not "
     "reachable on such inputs and is not covered",
     "clock.advance amounts are >= 0",
@@ -40,6 +49,12 @@ ASSUMES = [
     "already-fired Deferred), e (calls reset() from inside the function, then returns), a (calls start() from inside "
     "the function: AssertionError, converted to a failure) are run on the real code and compared with the model's "
     "raise / raise / return / return / raise",
+    "a Deferred returned by the function counts as unfired until callbacks added to it can run: one that was "
+    "callback()ed but is paused, or whose chain waits on another unfired Deferred (`.called` is True), is read as "
+    "'a Deferred fired later' (task.py: 'rescheduling will not take place until the deferred has fired'); the model "
+    "sees all four kinds as `defer`, every plain result as `ret`",
+    "the function's arguments are those given to LoopingCall(f, *a, **kw) (withCount: the count only); a call with "
+    "other arguments is reported as not being a call of the function as the statement means it (oracle key `arguments`)",
     "the skip-count sum is checked against the grid start + k*interval of the current start(); after reset() the "
     "statement does not say which boundaries count, so only count >= 1 and the model tie are checked there",
 ]
@@ -70,7 +85,11 @@ MANIFEST = {
             "Invariant proof by induction over histories; model tied to task.py by differential runs event by event, and "
             "its arithmetic kernels (_intervalOf, howLong) regenerated from task.py by the translator on every run and "
             "proved equal to the model's functions (gen_* theorems; the no-drift step w + howLong = next boundary is also "
-            "proved directly over the generated howLong).",
+            "proved directly over the generated howLong). The theorems are over unbounded integer times, so the "
+            "epoch-like clocks and the tiny/huge tick units of the differential runs are inside them; the kinds of "
+            "unfired Deferred (subclass, called-but-chained, called-while-paused), the result values and the "
+            "function's arguments are refinements of the model's `defer` / `ret` behaviours, checked on the real code by "
+            "the differential runs and the oracle.",
     "note": "trusts Lean kernel, the hand-written model of LoopingCall/Clock.advance (differentially tied), exact float "
             "arithmetic on dyadic inputs; the float-absorption branch of howLong is not covered",
     "technique": "Lean 4 proof (state invariant + ghost monitor, induction over histories) + differential tie + "
@@ -110,6 +129,61 @@ def _failed():
     return fail(Failure(_Boom()))
 
 
+class _SubDeferred(Deferred):
+    """the looped function may return an instance of a subclass of Deferred"""
+
+
+# plain results of the looped function / values its Deferred is fired with (case["rv"], codes 0..7): the statement
+# says "returns" -- whatever value; LoopingCall ignores the result
+_VALUES = [None, False, 0, "", 7, (), "x", True]
+
+# the arguments the plain LoopingCall is constructed with (case["args"], modes 0..3)
+_ARGS = [((), {}), ((1, "two"), {}), ((), {"key": 3}), ((1,), {"key": 3, "other": None})]
+
+
+class _Gate:
+    """what the history's F / E operations act on for one outstanding Deferred of the looped function"""
+
+    def __init__(self, release):
+        self._release = release
+
+    def callback(self, value):
+        self._release(value)
+
+    def errback(self, failure):
+        self._release(failure)
+
+
+def _make_deferred(kind):
+    """an UNFIRED result of the looped function: (what the function returns, the gate F/E act on).
+    kind 0: a plain Deferred.  1: an instance of a Deferred subclass.  2: a Deferred that was already callback()ed
+    but whose chain waits on another, unfired, Deferred (a callback returned it): `.called` is True, no result is
+    available to callbacks added now.  3: a Deferred callback()ed while pause()d.  In all four the callbacks
+    LoopingCall adds run only when the gate is released -- "a Deferred fired later"."""
+    if kind == 1:
+        d = _SubDeferred()
+        return d, d
+    if kind == 2:
+        inner = Deferred()
+        d = Deferred()
+        d.addCallback(lambda _: inner)
+        d.callback(None)
+        return d, inner
+    if kind == 3:
+        box = []
+        d = Deferred()
+        d.addCallback(lambda _: box[0])
+        d.pause()
+        d.callback(None)
+
+        def release(v):
+            box.append(v)
+            d.unpause()
+        return d, _Gate(release)
+    d = Deferred()
+    return d, d
+
+
 def run_impl(c):
     if any(op[0] == "A" and op[1] < 0 for op in c["ops"]):
         return "bad-op"
@@ -125,16 +199,30 @@ def run_impl(c):
 
     def tick(t):
         v = t / scale
-        assert v == int(v) and abs(v) < 2 ** 40, "time left the dyadic grid"
+        assert v == int(v) and abs(v) < 2 ** 52, "time left the dyadic grid"
         return int(v)
 
-    def user(count=None):
+    dk = c.get("dk") or [0]
+    rv = c.get("rv") or [0]
+    want_args = _ARGS[0 if c["wc"] else c.get("args", 0)]
+
+    def value(n):
+        return _VALUES[rv[n % len(rv)]]
+
+    def user(*args, **kw):
+        n = invoked[0]
         invoked[0] += 1
+        if c["wc"]:
+            count, args = (args[0], args[1:]) if args else (-1, ("no count",))
+        else:
+            count = None
         try:
             log.append("c%d:%s" % (tick(clock.seconds()), "-" if count is None else count))
         except AssertionError as e:
             broken.append(e)
             raise
+        if (args, kw) != want_args:
+            log.append("!args")          # the function was not called with the arguments the LoopingCall was given
         b = script.pop(0) if script else "r"
         if b == "x":
             raise _Boom()
@@ -144,7 +232,11 @@ def run_impl(c):
             return _failed()
         if b == "o":
             from twisted.internet.defer import succeed
-            return succeed(None)
+            if dk[n % len(dk)] == 1:
+                d = _SubDeferred()
+                d.callback(value(n))
+                return d
+            return succeed(value(n))
         if b == "e":
             lc.reset()           # reset() from inside the function: a call is in progress, nothing to reschedule
         if b == "a":
@@ -157,10 +249,10 @@ def run_impl(c):
         if b in "st":
             lc.stop()
         if b in "dt":
-            d = Deferred()
-            inner.append(d)
+            d, gate = _make_deferred(dk[n % len(dk)])
+            inner.append((gate, n))
             return d
-        return None
+        return value(n)
 
     if c["wc"]:
         lc = task.LoopingCall.withCount(user)
@@ -174,7 +266,7 @@ def run_impl(c):
             return r
         lc.f = observed
     else:
-        lc = task.LoopingCall(user)
+        lc = task.LoopingCall(user, *want_args[0], **want_args[1])
     lc.clock = clock
 
     def do(op, top):
@@ -195,10 +287,11 @@ def run_impl(c):
                 clock.advance(op[1] * scale)
             elif op[0] == "F":
                 if inner:
-                    inner.pop(0).callback(None)
+                    gate, n = inner.pop(0)
+                    gate.callback(value(n + 1))
             elif op[0] == "E":
                 if inner:
-                    inner.pop(0).errback(Failure(_Boom()))
+                    inner.pop(0)[0].errback(Failure(_Boom()))
             else:
                 outside[0] = True
         except AssertionError as e:
@@ -408,6 +501,9 @@ def oracle(c, out):
         exp = sp.apply(op)
         restart = sp.runs > 1
         where = f"op #{i} {op} at tick {sp.t} (interval {sp.I}, start {sp.st}, now={1 - sp.k0 if sp.st is not None else '-'})"
+        if ("!args",) in got:
+            return {"key": "arguments", "detail": f"{where}: the function was not called with the arguments (and "
+                                                  f"keyword arguments) the LoopingCall was constructed with: {txt}"}
         gcalls = [e for e in got if e[0] == "c"]
         ecalls = [e for e in exp if e[0] == "c"]
         gskip = [e for e in got if e[0] == "z"]
@@ -500,6 +596,26 @@ def corpus():
         # failures outside the Exception hierarchy, already-fired Deferreds returned by the function
         {"wc": False, "k": 0, "script": ["o", "b"], "re": [[["S", 1, 0]]], "ops": [["S", 2, 1], ["A", 2], ["A", 1], ["X"]]},
         {"wc": True, "k": 0, "script": ["r", "o", "f"], "re": [], "ops": [["S", 2, 0], ["A", 2], ["A", 2], ["A", 2], ["A", 2]]},
+        # LoopingCall(f, *a, **kw): the function gets its arguments at every call
+        {"wc": False, "k": 0, "script": [], "args": 3, "ops": [["S", 2, 1], ["A", 2], ["A", 5], ["X"]]},
+        {"wc": False, "k": 0, "script": ["d"], "args": 2, "ops": [["S", 2, 0], ["A", 2], ["F"], ["A", 2], ["X"]]},
+        # the function returns a Deferred that was already callback()ed but waits on another unfired Deferred (dk 2),
+        # one callback()ed while paused (3), an instance of a Deferred subclass (1): no call until it really fires
+        {"wc": False, "k": 0, "script": ["d", "r"], "dk": [2], "ops": [["S", 1, 1], ["A", 1], ["A", 1], ["F"], ["A", 1], ["X"]]},
+        {"wc": True, "k": 0, "script": ["d", "d"], "dk": [3, 1], "ops": [["S", 2, 1], ["A", 5], ["F"], ["A", 1], ["A", 4], ["E"]]},
+        {"wc": False, "k": 1, "script": ["d", "t"], "dk": [1, 2], "ops": [["S", 2, 0], ["A", 2], ["A", 2], ["F"], ["A", 2], ["A", 4], ["F"]]},
+        {"wc": True, "k": 0, "script": ["d"], "dk": [3], "ops": [["S", 1, 1], ["A", 3], ["E"], ["A", 3]]},
+        # results other than None (returned, or fired into the function's Deferred): the loop goes on all the same
+        {"wc": False, "k": 0, "script": ["r", "d", "o"], "rv": [1, 1, 2], "ops": [["S", 1, 1], ["A", 1], ["F"], ["A", 1], ["A", 1], ["A", 1], ["X"]]},
+        {"wc": True, "k": 0, "script": ["r", "r", "r"], "rv": [1, 2, 3], "ops": [["S", 1, 1], ["A", 1], ["A", 1], ["A", 1], ["X"]]},
+        # a clock at an epoch-like time (2^31 s in ticks of 1 s; 2^50 ticks of 2^-10 s), late completion, jumps
+        {"wc": True, "k": 0, "script": ["r", "d"], "ops": [["A", 2 ** 31 + 1], ["S", 1, 1], ["A", 1], ["F"], ["A", 1], ["A", 3], ["X"]]},
+        {"wc": False, "k": 10, "script": ["d"], "ops": [["A", 2 ** 50 + 3], ["S", 4, 1], ["A", 2], ["F"], ["A", 2], ["A", 1], ["A", 3], ["X"]]},
+        {"wc": True, "k": 10, "script": [], "ops": [["A", 2 ** 45], ["S", 3, 0], ["A", 3], ["A", 10], ["R"], ["A", 3], ["X"], ["S", 1, 1]]},
+        # tiny units: a tick of 2^-40 s (interval 4 ticks = 3.6e-12 s), huge units: a tick of 4096 s
+        {"wc": True, "k": 40, "script": ["r", "d"], "ops": [["S", 4, 1], ["A", 9], ["A", 1], ["F"], ["A", 2], ["A", 8], ["X"]]},
+        {"wc": False, "k": 40, "script": ["d"], "ops": [["S", 4, 1], ["A", 1], ["F"], ["A", 3], ["A", 1], ["X"]]},
+        {"wc": True, "k": -12, "script": ["r", "d"], "ops": [["S", 4, 0], ["A", 9], ["A", 3], ["F"], ["A", 2], ["A", 8], ["X"]]},
         # reset() / start() from inside the looped function
         {"wc": True, "k": 0, "script": ["e", "r", "e", "a"], "re": [[["S", 2, 0]]],
          "ops": [["S", 3, 1], ["A", 3], ["A", 4], ["A", 2], ["A", 2], ["X"]]},
@@ -535,6 +651,18 @@ def _gen_case(rng, reactive=False):
     else:
         script = [rng.choice("rrrrrrddxst" if rng.random() < 0.8 else "rdddxstobfae") for _ in range(rng.choice([0, 0, 1, 2, 3, 5, 8]))]
     c = {"wc": wc, "k": k, "script": script, "ops": []}
+    r = rng.random()
+    if r < 0.12:
+        c["k"] = rng.choice([20, 30, 40, 40])          # tiny units: a tick of 2^-20 … 2^-40 s (intervals below 1e-9 s)
+    elif r < 0.17:
+        c["k"] = rng.choice([-6, -12])                 # huge units: a tick of 64 s / 4096 s
+    if rng.random() < 0.5:
+        # what the function returns is varied: kinds of unfired Deferred (plain / subclass / already called but
+        # chained to an unfired one / called while paused), result values other than None
+        c["dk"] = [rng.randrange(4) for _ in range(rng.choice([1, 2, 3, 5]))]
+        c["rv"] = [rng.randrange(len(_VALUES)) for _ in range(rng.choice([1, 2, 3, 5]))]
+    if not wc and rng.random() < 0.6:
+        c["args"] = rng.randint(1, 3)                  # LoopingCall(f, *a, **kw)
 
     def interval():
         return rng.choice([1, 1, 2, 3, 4, 5, 7, 8, 16, rng.randint(1, 64)])
@@ -548,11 +676,16 @@ def _gen_case(rng, reactive=False):
         n = rng.choice([5, 8, 12, 20, 30])
     pstop = 0.16 if reactive else 0.08
 
+    if rng.random() < 0.25:
+        # the clock does not start at 0: an epoch-like time, 2^36 … 2^50 ticks (not a multiple of the interval)
+        ops.append(["A", 2 ** rng.choice([36, 40, 45, 50]) + rng.choice([0, 1, rng.randint(0, 1000)])])
+        sp.apply(ops[0])
+        n += 1
     if rng.random() < 0.06:
         ops.append(rng.choice([["X"], ["R"], ["A", 3], ["S", -rng.randint(1, 4), 1]]))
     else:
         ops.append(["S", interval(), rng.randint(0, 1)])
-    sp.apply(ops[0])
+    sp.apply(ops[-1])
     tries = 0
     while len(ops) < n and tries < 10 * n:
         tries += 1
@@ -624,6 +757,12 @@ def _shrinks(c):
         yield dict(c, script=s[:i] + s[i + 1:])
         if s[i] != "r":
             yield dict(c, script=s[:i] + ["r"] + s[i + 1:])
+    for extra in ("dk", "rv", "args"):
+        if c.get(extra):
+            yield {k: v for k, v in c.items() if k != extra}
+            if isinstance(c[extra], list) and len(c[extra]) > 1:
+                yield dict(c, **{extra: c[extra][:1]})
+                yield dict(c, **{extra: c[extra][1:]})
     re_ = c.get("re", [])
     if re_:
         yield {k: v for k, v in c.items() if k != "re"}
@@ -654,6 +793,14 @@ def tag(c, out):
         return "bad-op"
     sp = _Spec(c)
     feats = {"wc" if c["wc"] else "plain"}
+    if c["k"] >= 20:
+        feats.add("tiny-unit")
+    elif c["k"] < 0:
+        feats.add("huge-unit")
+    if not c["wc"] and c.get("args"):
+        feats.add("args%d" % c["args"])
+    dk = c.get("dk") or [0]
+    rv = c.get("rv") or [0]
     for op in c["ops"]:
         was_running, was_out = sp.running, sp.outstanding
         lenb = len(sp.script)
@@ -677,6 +824,15 @@ def tag(c, out):
             if e[0] in ("d-", "!A", "!V"):
                 feats.add(e[0])
         for j in range(len(c["script"]) - lenb, len(c["script"]) - len(sp.script)):
-            feats.add("b" + c["script"][j])
+            b = c["script"][j]
+            feats.add("b" + b)
+            if b in "dt" and dk[j % len(dk)]:
+                feats.add("dk%d" % dk[j % len(dk)])
+            elif b == "o" and dk[j % len(dk)] == 1:
+                feats.add("o-sub")
+            elif b in "rseo" and rv[j % len(rv)]:
+                feats.add("rv")
+        if sp.t >= 2 ** 30 and any(e[0] == "c" for e in exp):
+            feats.add("epoch")
     feats.update(sp.feats)
     return " ".join(sorted(feats))
